@@ -30,6 +30,9 @@ def run(m, tier):
     results.append(r27)
     from rules import reader_rules as _rr
     results.append(_rr.replace_map_table_rule(m, "C01.R23"))
+    results.append(two_roundtrip.full_roundtrip_rule(m, "C01.R28"))
+    r29 = two_roundtrip.full_roundtrip_rule(m, "C01.R29", std="f2008", samples=two_roundtrip.SAMPLES_2008, floor=22)
+    results.append(r29)
     results.append(two_roundtrip.block_printer_rule(m, "C01.R24"))
     results.append(_rr.rule_semicolon(m, "C01.R25"))
     from rules import C17
